@@ -219,6 +219,9 @@ func checkDegraded(o *workload.Op, res *workload.Result, t *truth, P map[rkey]bo
 			if m := inBag("a DNSRewrites() element", r, t.nrs); m != "" {
 				return "superset:" + oc, m
 			}
+			if r != nil && nrs[keyOf(r)] == 0 {
+				return "inconsistent-result:" + oc, fmt.Sprintf("DNSRewrites() returns %s, which is not among this result's NetworkRules", keyOf(r))
+			}
 		}
 		if m := lower("NetworkRules", t.nrs, nrs); m != "" {
 			return "lost-materialised:" + oc, m
@@ -395,7 +398,7 @@ func RunC19(ch *core.Chooser, env *Env) *Outcome {
 func runC19Seq(ch *core.Chooser, env *Env, out *Outcome) *Outcome {
 	fp := readFaultPlan(env)
 	hosts := workload.PickHosts(ch)
-	maxLines, maxOps := 30, 12
+	maxLines, maxOps := 30, 16
 	if env.Thorough {
 		maxLines, maxOps = 80, 40
 	}
